@@ -236,6 +236,14 @@ class HeaderTxSub(Sub):
             last = ei == len(drv.epochs) - 1
             res = judge_epoch(drv, trace, log, ei, final=last and finished and drv.epochs[ei]["u1"] is None)
             if isinstance(res, Result):
+                ov = [c["t"] for c in drv.sent_cmds if c["epoch"] == ei and c["tag"] == "lbad-overtaking"]
+                late = [(c["sub"], c["t"]) for c in drv.sent_cmds if c["epoch"] == ei and c["tag"] == "ack" and ov
+                        and c["t"] > ov[0]]
+                if late:
+                    # root-cause class of its own: LGOODs that arrive after the LBAD that overtook them
+                    res.signature = "after-late-lgood-" + (res.signature or "unclassified")
+                    res.msg += (f" [ordering mismatch in this link entry: LBAD word(s) in cycle(s) {ov} overtook LGOODs "
+                                f"that followed: {[f'LGOOD({n})@{t}' for n, t in late[:4]]}]")
                 return res
             for k in tot:
                 tot[k] += res[k]
